@@ -34,6 +34,9 @@ type Region struct {
 	Transient []Exc
 	// ProbeHold holds every request to this region until released.
 	Hold bool
+	// KillAfterProbe > 0: the next region probes are answered normally and the
+	// server then drops the connection at once (it crashes right after the probe).
+	KillAfterProbe int
 }
 
 // Contains says whether row lies in [Start, Stop).
